@@ -272,6 +272,8 @@ class Intersection:
         nodes_b_sample = [0] + [(2 * i + 1) / (2 * nsmb) for i in range(nsmb)] + [1]
         uasample = [uamin + (uamax - uamin) * node for node in nodes_a_sample]
         ubsample = [ubmin + (ubmax - ubmin) * node for node in nodes_b_sample]
+        uasample = [min(max(node, uamin), uamax) for node in uasample]
+        ubsample = [min(max(node, ubmin), ubmax) for node in ubsample]
         pairs = set()
         for nodea in uasample:
             for nodeb in ubsample:
